@@ -120,14 +120,38 @@ class Fn:
             return e.id, env[e.id]
         if isinstance(e, ast.Constant) and type(e.value) is int:
             return '(%d)%%Z' % e.value, 'Z'
+        if isinstance(e, ast.Constant) and type(e.value) is bool:
+            return ('true' if e.value else 'false'), 'bool'
+        if isinstance(e, ast.Constant) and type(e.value) is float and e.value == int(e.value) and 'Z->Q' in self.sig.get('coerce', {}):
+            return self.sig['coerce']['Z->Q'].format('(%d)%%Z' % int(e.value)), 'Q'
+        if isinstance(e, ast.UnaryOp) and isinstance(e.op, ast.Not):
+            return 'negb %s' % paren(self.truth(e.operand, env)), 'bool'
+        if isinstance(e, ast.BoolOp):
+            op = {'Or': 'orb', 'And': 'andb'}[type(e.op).__name__]
+            parts = [self.truth(v, env) for v in e.values]
+            txt = parts[-1]
+            for q in reversed(parts[:-1]):   # Python evaluates left to right and stops early; the operands here have no effects
+                txt = '%s %s %s' % (op, paren(q), paren(txt))
+            return txt, 'bool'
+        if isinstance(e, ast.BinOp):
+            l, r = self.expr(e.left, env), self.expr(e.right, env)
+            key = '%s %s %s' % (l[1], type(e.op).__name__, r[1])
+            ent = self.sig.get('binop', {}).get(key)
+            if ent is None:
+                raise Unsupported(e, 'operation %s is not in the signature' % key)
+            return ent['coq'].format(paren(l[0]), paren(r[0])), ent['type']
+        if isinstance(e, ast.Attribute) and isinstance(e.ctx, ast.Load):
+            recv = self.expr(e.value, env)
+            ent = self.sig.get('attrs', {}).get(recv[1], {}).get(e.attr)
+            if ent is None:
+                raise Unsupported(e, 'attribute %s of a value of type %s is not in the signature' % (e.attr, recv[1]))
+            return ent['coq'].format(paren(recv[0])), ent['type']
         if isinstance(e, ast.Dict) and not e.keys and not e.values:
             ent = self.sig['literals'].get('{}')
             if not ent:
                 raise Unsupported(e, 'empty dict literal')
             return ent['coq'], ent['type']
         if isinstance(e, ast.Call):
-            if e.keywords:
-                raise Unsupported(e, 'keyword arguments')
             if any(isinstance(a, ast.Starred) for a in e.args):
                 raise Unsupported(e, 'starred argument')
             args = [self.expr(a, env) for a in e.args]
@@ -137,6 +161,8 @@ class Fn:
                     raise Unsupported(e, 'call of the variable %s' % name)
                 origin = self.bindings.get(name, 'builtins.' + name)
                 ent = self.sig['functions'].get(origin)
+                if e.keywords:
+                    raise Unsupported(e, 'keyword arguments')
                 if ent is None:
                     raise Unsupported(e, 'call of %s (%s) is not in the signature' % (name, origin))
                 return self.prim(e, ent, args)
@@ -145,7 +171,22 @@ class Fn:
                 ent = self.sig['methods'].get(recv[1], {}).get(e.func.attr)
                 if ent is None:
                     raise Unsupported(e, 'method %s of a value of type %s is not in the signature' % (e.func.attr, recv[1]))
-                return self.prim(e, dict(ent, args=[recv[1]] + ent.get('args', [])), [recv] + args)
+                kws = []
+                given = {}
+                for k in e.keywords:
+                    if k.arg is None or k.arg in given or k.arg not in ent.get('kw', {}):
+                        raise Unsupported(e, 'keyword %s of %s is not in the signature' % (k.arg, e.func.attr))
+                    given[k.arg] = k.value
+                for kname in sorted(ent.get('kw', {})):   # keywords are named in the call or take the default of the signature
+                    kent = ent['kw'][kname]
+                    if kname in given:
+                        v = given[kname]
+                        if not (isinstance(v, ast.Constant) and isinstance(v.value, str) and v.value in kent['values']):
+                            raise Unsupported(e, 'value of keyword %s is not one of the constants of the signature' % kname)
+                        kws.append((kent['values'][v.value], kent['type']))
+                    else:
+                        kws.append((kent['default'], kent['type']))
+                return self.prim(e, dict(ent, args=[recv[1]] + ent.get('args', []) + [k[1] for k in kws]), [recv] + args + kws)
             raise Unsupported(e, 'call of %s' % type(e.func).__name__)
         if isinstance(e, ast.Compare) and len(e.ops) == 1:
             l, r = self.expr(e.left, env), self.expr(e.comparators[0], env)
@@ -155,6 +196,15 @@ class Fn:
                 raise Unsupported(e, 'comparison %s is not in the signature' % key)
             return ent['coq'].format(paren(l[0]), paren(r[0])), ent['type']
         raise Unsupported(e, 'expression %s' % type(e).__name__)
+
+    def truth(self, e, env):
+        txt, ty = self.expr(e, env)
+        if ty == 'bool':
+            return txt
+        t = self.sig.get('truth', {}).get(ty)
+        if t is None:
+            raise Unsupported(e, 'truth value of a value of type %s' % ty)
+        return t.format(paren(txt))
 
     def coerce(self, node, val, want):
         txt, ty = val
@@ -182,6 +232,12 @@ class Fn:
             else:
                 raise Unsupported(s, 'statement %s inside a loop' % type(s).__name__)
         return out
+
+    def returns(self, stmts):
+        if not stmts:
+            return False
+        last = stmts[-1]
+        return isinstance(last, ast.Return) or (isinstance(last, ast.If) and self.returns(last.body) and self.returns(last.orelse))
 
     def block(self, stmts, env, final, ind):
         """final: None (the block must end in return) or a function env -> coq term (end of a loop body)"""
@@ -211,17 +267,22 @@ class Fn:
                     + self.block(rest, env, final, ind)
             raise Unsupported(s, 'assignment target %s' % type(t).__name__)
         if isinstance(s, ast.If):
-            c = self.expr(s.test, env)
-            if c[1] != 'bool':
-                raise Unsupported(s, 'condition of type %s' % c[1])
-            return (pad + 'if %s\n' % c[0] + pad + 'then (\n' + self.block(list(s.body) + rest, env, final, ind + 1) + ')\n'
-                    + pad + 'else (\n' + self.block(list(s.orelse) + rest, env, final, ind + 1) + ')')
+            c = (self.truth(s.test, env), 'bool')
+            # a branch that ends in return does not reach the statements after the if
+            tb = list(s.body) + ([] if self.returns(s.body) else rest)
+            eb = list(s.orelse) + ([] if self.returns(s.orelse) else rest)
+            return (pad + 'if %s\n' % c[0] + pad + 'then (\n' + self.block(tb, env, final, ind + 1) + ')\n'
+                    + pad + 'else (\n' + self.block(eb, env, final, ind + 1) + ')')
         if isinstance(s, ast.Return):
             if final is not None:
                 raise Unsupported(s, 'return inside a loop')
             if rest:
                 raise Unsupported(rest[0], 'statement after return')
             shape = self.fsig['returns']
+            if isinstance(shape, str):
+                if s.value is None:
+                    raise Unsupported(s, 'bare return')
+                return pad + self.coerce(s.value, self.expr(s.value, env), shape)
             if not isinstance(s.value, ast.Tuple) or len(s.value.elts) != len(shape):
                 raise Unsupported(s, 'the value returned is not a tuple of %d' % len(shape))
             parts = [self.coerce(x, self.expr(x, env), w) for x, w in zip(s.value.elts, shape)]
@@ -289,8 +350,18 @@ def translate(sigpath, repo):
     check_pins(sig, repo)
     bindings = top_bindings(tree)
     out = []
+    body0 = tree.body
+    if sig.get('class'):
+        cls = [n for n in tree.body if isinstance(n, ast.ClassDef) and n.name == sig['class']]
+        if len(cls) != 1:
+            raise Unsupported(tree, 'class %s' % sig['class'])
+        body0 = cls[0].body
+    for ty in sig['methods']:
+        for mname, ent in sig['methods'][ty].items():
+            if ent.get('emitted') and mname not in [f['py'] for f in sig['emit']]:
+                raise Unsupported(tree, 'method %s is marked as translated but is not in the emit list' % mname)
     for fsig in sig['emit']:
-        fn = find_fn(tree.body, fsig['py'])
+        fn = find_fn(body0, fsig['py'])
         if fn.decorator_list or fn.args.vararg or fn.args.kwarg or fn.args.kwonlyargs or fn.args.posonlyargs:
             raise Unsupported(fn, 'decorators / star arguments')
         params = [a.arg for a in fn.args.args]
@@ -314,9 +385,12 @@ def translate(sigpath, repo):
         f = Fn(sig, fsig, bindings)
         body = f.block(strip_doc(list(fn.body)), env, None, 1)
         out += f.aux
-        out.append('Definition %s %s:=\n%s.' % (fsig['coq'], ''.join('(%s : %s) ' % (p['name'], sig['types'][p['type']])
-                                                                      for p in fsig['params']), body))
-    head = ['(* GENERATED by tools/py2v_sum from %s - do not edit; regenerated on every check. *)' % sig['source']] + sig['header']
+        rty = fsig['returns']
+        rty = ': %s ' % sig['types'][rty] if isinstance(rty, str) else ''
+        out.append('Definition %s %s%s:=\n%s.' % (fsig['coq'], ''.join('(%s : %s) ' % (p['name'], sig['types'][p['type']])
+                                                                      for p in fsig['params']), rty, body))
+    head = ['(* GENERATED by tools/py2v_sum from %s%s - do not edit; regenerated on every check. *)'
+            % (sig['source'], ' (class %s)' % sig['class'] if sig.get('class') else '')] + sig['header']
     text = '\n'.join(head) + '\n\n' + '\n\n'.join(out) + '\n'
     return sig, text, hashlib.sha256(raw).hexdigest()
 
